@@ -20,7 +20,7 @@ RULE = (
     "names=(period, initial_state_id)) in that order; columns = {value, _period} + choices + states + targets "
     "without duplicates; _period equals the period level; every target column equals the NumPy evaluation of that "
     "model function at the row's states/choices/period/params (1e-9, booleans exact); row (t,i) belongs to agent i "
-    "(period-0 rows equal the i-th supplied initial state, consecutive rows of i obey the law of motion). "
+    "(period-0 rows equal the i-th supplied initial state, consecutive rows of i obey the law of motion). In half of the cases a TWIN model (same names and signatures, different table contents and parameter values) is simulated first in the same process, so that state leaking between models is exposed. "
     "Non-trivial: >=2 agents with pairwise distinct initial states, T>=2 and >=1 additional target; distinct by "
     "case digest."
 )
@@ -44,6 +44,7 @@ def cases(draw):
         "seed": draw(st.integers(0, 2**31 - 1)),
         "targets_none": draw(st.integers(0, 5)) == 0,
         "target_picks": draw(st.lists(st.integers(0, 1), min_size=12, max_size=12)),
+        "twin_first": draw(st.booleans()),
     }
 
 
@@ -104,9 +105,21 @@ def check(case):
         targets = None
     else:
         targets = [n for n, p in zip(pool, case["target_picks"]) if p]
+    classes = model_classes(spec, ref)
+    if case.get("twin_first"):
+        # history: first simulate a twin model (same names and signatures, other table contents
+        # and parameter values) in the same process; it must not influence the model under test
+        from ..ir import twin
+
+        tw = twin(spec)
+        try:
+            ftw = simcheck.get_functions(tw, targets=("solve_and_simulate",))
+            simcheck.simulate(ftw, tw, init, case["seed"], additional_targets=targets)
+            classes.append("twin_model_simulated_first")
+        except Exception:  # noqa: BLE001  (the twin may be unsupported; it is only a disturbance)
+            classes.append("twin_model_failed")
     fns = simcheck.get_functions(spec, targets=("solve_and_simulate",))
     df = simcheck.simulate(fns, spec, init, case["seed"], additional_targets=targets)
-    classes = model_classes(spec, ref)
     classes.append("targets_none" if targets is None else f"targets_{min(len(targets), 3)}")
     classes.append(f"agents_{'1' if N == 1 else 'n'}")
     classes.append(f"periods_{'1' if T == 1 else 'n'}")
